@@ -669,6 +669,43 @@ def check_assign(ctx, tu, sy, f, counts):
     emit(ctx, tu, g, res, found, inst, (R4,), tu.fn_loc(f), {R4: 'argument stored into queuedValue and flag set inside one lock scope'})
 
 
+class _Probe:
+    """collects verdicts without reporting them (used to find out where a member is written under the lock)"""
+
+    def __init__(self):
+        self.bad = []
+
+    def violation(self, rule, instance, why, loc='?', key=None, path=None):
+        self.bad.append(why)
+
+    def undecided(self, rule, instance, why, loc='?'):
+        self.bad.append(why)
+
+    def ok(self, *a, **k):
+        pass
+
+
+def atomic_mirror(tu, sy, rec, T, member):
+    """is the atomic data member written (store / read-modify-write) inside a lock scope of the class mutex in at least one
+    member function?"""
+    T2 = dict(T, guarded=tuple(T['guarded']) + (member,))
+    for f in tu.functions.values():
+        if f['dep'] or f.get('rec') != rec or tu.cfg(f) is None or f.get('ctor') or f.get('dtor'):
+            continue
+        writes = False
+        for b, i, n in tu.cfg(f).stmts():
+            ev = sy.event(['S', n['id']])
+            if ev is not None and ev[0] in ('store', 'rmw') and ev[1] is not None and ev[1] == (rec, member):
+                writes = True
+        if not writes:
+            continue
+        probe = _Probe()
+        check_guarded(probe, tu, sy, rec, T2, f, {R1: 0})
+        if not any(member in w for w in probe.bad):
+            return True
+    return False
+
+
 # ======================================================================================================
 def check_tu(ctx, tu, counts):
     sy = Sync(tu)
@@ -689,6 +726,14 @@ def check_tu(ctx, tu, counts):
                               T['file'])
                 okrec = False
             for extra in sorted(set(names) - want):
+                if is_atomic_type(names[extra]) and atomic_mirror(tu, sy, rec, T, extra):
+                    # contradiction rule: the code itself writes this atomic under the mutex somewhere, i.e. it mirrors guarded
+                    # state; every other write has to be under the same mutex (loads stay exempt)
+                    if extra not in T['guarded']:
+                        T = dict(T, guarded=tuple(T['guarded']) + (extra,))
+                        ctx.note('%s: new atomic member `%s` is written under %s in at least one member function: treated as guarded by it'
+                                 % (T['short'], extra, T['mutex']))
+                    continue
                 ctx.undecided(R1, r['q'], 'data member %s is not in the guarded-by table of the check (which lock protects it?)' % extra,
                               T['file'])
         if not okrec:
